@@ -1,4 +1,4 @@
-SPECIFICATION Spec
+SPECIFICATION MSpec
 CONSTANTS
   ConfSet <- AllConfs
   Durs = {0, 1, 2, 4}
@@ -6,6 +6,7 @@ CONSTANTS
   Horizon = 13
   MaxChanges = 2
   MaxFails = 2
+  MaxToggles = 2
   PermStops = TRUE
 INVARIANT FirstRun
 INVARIANT NoOverlap
@@ -15,4 +16,5 @@ INVARIANT AfterOkSharp
 INVARIANT AfterTemp
 INVARIANT AfterExc
 INVARIANT PermanentEndsIt
+INVARIANT RespawnedFirst
 CHECK_DEADLOCK FALSE
